@@ -48,6 +48,7 @@ type Response struct {
 	Err        string         `json:"err,omitempty"` // harness failure (not a property violation)
 	Died       bool           `json:"died,omitempty"`
 	Log        string         `json:"log,omitempty"`
+	KeyText    string         `json:"keytext,omitempty"`
 }
 
 // ExecFunc is the engine-specific worker body.
@@ -86,6 +87,7 @@ func WorkerMain(exec ExecFunc) {
 }
 
 type worker struct {
+	cleanExit bool
 	cmd   *exec.Cmd
 	in    io.WriteCloser
 	out   *bufio.Reader
@@ -144,8 +146,16 @@ func (p *Pool) spawn() (*worker, error) {
 func (w *worker) kill() {
 	if w.alive {
 		w.in.Close()
-		w.cmd.Process.Kill()
-		w.cmd.Wait()
+		// a worker that ended itself on purpose exits with status 0 before it reads another request
+		done := make(chan error, 1)
+		go func() { done <- w.cmd.Wait() }()
+		select {
+		case err := <-done:
+			w.cleanExit = err == nil
+		case <-time.After(200 * time.Millisecond):
+			w.cmd.Process.Kill()
+			<-done
+		}
 		w.alive = false
 	}
 }
@@ -177,7 +187,15 @@ func (p *Pool) Start() {
 						continue
 					}
 				}
-				it.done(p.call(w, it.req))
+				resp := p.call(w, it.req)
+				if resp.Died && resp.Err == "" && w.cleanExit {
+					// the worker had ended itself after its previous response (poisoned instance): start a fresh one
+					w, _ = p.spawn()
+					if w != nil {
+						resp = p.call(w, it.req)
+					}
+				}
+				it.done(resp)
 			}
 		}()
 	}
